@@ -7,3 +7,6 @@ CONSTANTS
   IssueCounts = {0, 2}
   CounterKinds = {"none", "braced3"}
   NumKinds = {"none", "zero", "val"}
+  ErrKinds = {"none"}
+  SepStyles = {"plain", "blanks", "extra"}
+  MultiStyles = {"one", "split0", "split1", "lead"}
